@@ -46,7 +46,8 @@ class C13(Prop):
     rule = ('case = (cloud, machine type from the generated table, preemptible, local-ssd or external data disk with size, boot disk size, '
             'job_private, location, regional products present or hidden (fallback names), legacy dict form, packing); packing = recursive '
             'halving of the worker into power-of-two quarter-core jobs with some dropped, memory = proportional share rounded down to MiB or '
-            'less, extra storage 0 / random / disk-size boundaries; every case also bills the whole worker; non-trivial = at least two jobs '
+            'less, or (60% of the pool-eligible machine types) exactly what the real front-end conversion grants for the job\'s cpu on that '
+            'worker type; extra storage 0 / random / disk-size boundaries; every case also bills the whole worker; non-trivial = at least two jobs '
             'billed without an assert; distinct by full case')
     trusted = ['harness/extract/machines.py (table translator)',
                'fake ProductVersions: every product has a version; optionally regional products are hidden to take the fallback names']
@@ -80,6 +81,14 @@ class C13(Prop):
         self.machines = {'gcp': {m[0]: (m[3], m[4]) for m in t['gcp_machines']},
                          'azure': {m[0]: (m[2], m[3]) for m in t['azure_machines']}}
         self.azure_disk_sizes = sorted({z for _f, ds in t['azure_disks'] for _n, z in ds})
+        # what the front end grants a pool job of a given cpu: cpu x memory-per-core of the pool's worker type (C12)
+        from batch.cloud.azure.resource_utils import azure_cores_mcpu_to_memory_bytes
+        from batch.cloud.gcp.resource_utils import gcp_cores_mcpu_to_memory_bytes
+        fam = t['gcp_family']
+        self.per_core = {'gcp': {wt: v * MIB for (f, wt), v in t['gcp_mem_per_core'] if f == fam}, 'azure': {wt: v * MIB for wt, v in t['azure_mem_per_core']}}
+        self.worker_type = {'gcp': {m[0]: m[2] for m in t['gcp_machines'] if m[1] == fam and m[2] in self.per_core['gcp']},
+                            'azure': {m[0]: m[1] for m in t['azure_machines'] if m[1] in self.per_core['azure']}}
+        self.grant = {'gcp': lambda cpu, wt: gcp_cores_mcpu_to_memory_bytes(cpu, fam, wt), 'azure': azure_cores_mcpu_to_memory_bytes}
 
     # ---- real code -------------------------------------------------------------------------------------
     def _product_versions(self, c):
@@ -284,8 +293,13 @@ class C13(Prop):
                 return f'the whole-worker job is billed {got} of {type(r).__name__} {getattr(r, "name", "")}, the whole worker is {exp}'
         # (1) a packing never adds up to more than the whole worker
         packing = jobs[:-1]
-        if sum(j[0] for j in packing) > cores * 1000 or sum(j[1] for j in packing) > memory:
+        wt = self.worker_type[cloud].get(c['machine_type'])
+        granted = (c.get('memory_from') == 'grant' and wt is not None
+                   and all(1000 * j[1] == j[0] * self.per_core[cloud][wt] for j in packing))
+        if sum(j[0] for j in packing) > cores * 1000:
             return None   # not a packing (the generator only makes packings; replayed / shrunk cases may not be)
+        if not granted and sum(j[1] for j in packing) > memory:
+            return None   # memories chosen freely must fit; memories granted by the platform for the jobs' cpus are a packing by construction
         full_cpu = (sum(j[0] for j in packing) == cores * 1000 and all(is_pow2_quarter(j[0]) for j in packing)
                     and is_pow2(cores) and cores <= 256)
         for k, r in enumerate(resources):
@@ -372,6 +386,12 @@ class C13(Prop):
             c = {'cloud': cloud, 'machine_type': mt, 'preemptible': rng.random() < 0.6, 'local_ssd': local_ssd, 'data_disk': data_disk,
                  'boot_disk': boot, 'job_private': job_private, 'location': location, 'hide_regional': cloud == 'gcp' and rng.random() < 0.3,
                  'legacy': None, 'jobs': self._packing(rng, cores, memory, cloud)}
+            wt = self.worker_type[cloud].get(mt)
+            if wt is not None and rng.random() < 0.6:
+                # jobs as the front end provisions them on a pool of this worker type: memory = what the real conversion grants for the cpu
+                c['memory_from'] = 'grant'
+                for j in c['jobs']:
+                    j[1] = self.grant[cloud](j[0], wt)
             r = rng.random()
             if cloud == 'gcp' and '+nvidia' in mt or mt.startswith(('g2-', 'a2-')):
                 if r < 0.2:
@@ -394,6 +414,9 @@ class C13(Prop):
             tags.append('fallback-product-names')
         if any(j[2] for j in jobs):
             tags.append('extra-storage')
+        if c.get('memory_from') == 'grant':
+            tags.append('memory-as-granted-by-the-front-end')
+        tags.append('machine=' + (c['machine_type'].split('-')[0] + '-' + c['machine_type'].split('-')[1] if c['cloud'] == 'gcp' else 'azure-' + c['machine_type'].split('_')[1][0]) + ('+gpu' if '+' in c['machine_type'] else ''))
         if sum(j[0] for j in jobs) == cores * 1000 and len(jobs) > 1:
             tags.append('full-packing')
         if any('accelerator' in o for o in out[-1:]):
